@@ -1,5 +1,6 @@
 import Norad.Lemmas.C07
 import Norad.Generated.FileNameConsts
+import Norad.Generated.FileNameFn
 /-!
 # C07 — assigned file names are portable, unique ignoring case, and stable (function level)
 
@@ -284,6 +285,169 @@ theorem source_fileName_len {U : Char → Bool} {lower : Str → Str} {name pre 
   have := fileName_len_255_partial (by rw [h1.1] at hs; exact hs) h
   rw [h1.1, h1.2]
   exact ⟨this.1, fun hsuf => this.2 (Or.inr hsuf)⟩
+
+/-! ## the translated source equals the model
+
+`C07.Gen.*` (`Generated/FileNameFn.lean`) is the statement-by-statement translation of `src/util.rs` made by
+`tools/extract_filename_consts.py` on every run.  Each section is proved equal, as a function, to the
+corresponding block of the hand-written model; `source_userNameToFileName_eq_model` composes them, so every
+theorem of this file is a theorem about the source as it stands. -/
+
+theorem gen_illegal_mem (c : Char) : c ∈ Generated.FileNameConsts.illegal ↔ c ∈ illegal := by
+  have h : (∀ c ∈ Generated.FileNameConsts.illegal, c ∈ illegal) ∧
+      (∀ c ∈ illegal, c ∈ Generated.FileNameConsts.illegal) := by decide
+  exact ⟨h.1 c, h.2 c⟩
+
+theorem gen_reserved_mem (w : Str) : w ∈ Generated.FileNameConsts.reserved ↔ w ∈ reserved := by
+  have h : (∀ w ∈ Generated.FileNameConsts.reserved, w ∈ reserved) ∧
+      (∀ w ∈ reserved, w ∈ Generated.FileNameConsts.reserved) := by decide
+  exact ⟨h.1 w, h.2 w⟩
+
+theorem source_escChar_eq_model : Gen.escChar = escChar := by
+  funext U b c
+  unfold Gen.escChar escChar
+  simp only [gen_illegal_mem]
+
+theorem source_escapeInto_eq_model : Gen.escapeInto = escapeInto := by
+  funext U acc name
+  induction name generalizing acc with
+  | nil => rfl
+  | cons c cs ih => unfold Gen.escapeInto escapeInto; rw [source_escChar_eq_model, ih]
+
+theorem source_insertReserved_eq_model : Gen.insertReserved = insertReserved := by
+  funext r
+  unfold Gen.insertReserved insertReserved
+  have : Gen.stem r = stem r := rfl
+  rw [this]
+  simp only [gen_reserved_mem]
+  split <;> simp [Gen.insertAtByte]
+
+theorem gen_maxLen : Generated.FileNameConsts.maxLen = maxLen := by decide
+theorem gen_numberLen : Generated.FileNameConsts.numberLen = numberLen := by decide
+
+theorem source_clip_eq_model : Gen.clip = fun _ suf r => clip suf r := by
+  funext pre suf r
+  unfold Gen.clip clip
+  rw [gen_maxLen]
+
+theorem source_cutForCounter_eq_model : Gen.cutForCounter = fun _ suf r => cutForCounter r suf := by
+  funext pre suf r
+  unfold Gen.cutForCounter cutForCounter
+  rw [gen_maxLen, gen_numberLen]
+
+theorem gen_dotsp (c : Char) : ['.', ' '].contains c = isDotSp c := by
+  unfold isDotSp
+  by_cases h1 : c = '.'
+  · subst h1; rfl
+  · by_cases h2 : c = ' '
+    · subst h2; rfl
+    · simp [h1, h2]
+
+theorem gen_fixTrailing_eq : Gen.fixTrailing = fixTrailing := by
+  funext r
+  unfold Gen.fixTrailing fixTrailing
+  have : (fun c => ['.', ' '].contains c) = isDotSp := funext gen_dotsp
+  rw [this]
+
+theorem fixTrailing_of_not_endsWith {r : Str} (h : Gen.endsWithAny r ['.', ' '] = false) :
+    fixTrailing r = r := by
+  have hk : r.reverse.takeWhile isDotSp = [] := by
+    cases hr : r.reverse with
+    | nil => rfl
+    | cons y ys =>
+      have hl : r.getLast? = some y := by rw [← List.head?_reverse, hr]; rfl
+      unfold Gen.endsWithAny at h
+      rw [hl] at h
+      simp only at h
+      rw [gen_dotsp] at h
+      rw [List.takeWhile_cons, h]; rfl
+  unfold fixTrailing
+  simp [hk]
+
+theorem source_trailing_eq_model :
+    Gen.trailing = fun _ suf r => if suf.isEmpty then fixTrailing r else r := by
+  funext pre suf r
+  unfold Gen.trailing
+  rw [gen_fixTrailing_eq]
+  cases hs : suf.isEmpty with
+  | false => simp
+  | true =>
+    cases he : Gen.endsWithAny r ['.', ' '] with
+    | true => simp
+    | false => simp [fixTrailing_of_not_endsWith he]
+
+theorem truncate_counter (base suf : Str) (k : Nat) :
+    truncateAt (base ++ twoDigits k ++ suf)
+      (usize (base ++ twoDigits k ++ suf) - usize suf - Generated.FileNameConsts.numberLen) = some base := by
+  have : usize (base ++ twoDigits k ++ suf) - usize suf - Generated.FileNameConsts.numberLen = usize base := by
+    rw [gen_numberLen]
+    simp only [usize_append, twoDigits_usize, numberLen]; omega
+  rw [this, List.append_assoc]
+  exact truncateAt_prefix _ _
+
+theorem source_tryCounters_eq_model (U : Char → Bool) (lower : Str → Str) (accept : Nat → Str → Bool)
+    (pre suf : Str) (fuel k : Nat) (base : Str) :
+    Gen.tryCounters U lower accept pre suf fuel k base = tryCounters lower accept base suf fuel k := by
+  induction fuel generalizing k with
+  | zero => rfl
+  | succ fuel ih =>
+    unfold Gen.tryCounters tryCounters
+    simp only
+    split
+    · rfl
+    · rw [truncate_counter]
+      exact ih (k + 1)
+
+theorem source_userNameToFileName_eq_model : Gen.userNameToFileName = userNameToFileName := by
+  funext U lower name pre suf accept
+  unfold Gen.userNameToFileName userNameToFileName firstCandidate
+  simp only [List.nil_append, source_escapeInto_eq_model, source_insertReserved_eq_model, source_clip_eq_model, source_trailing_eq_model,
+    source_cutForCounter_eq_model]
+  cases clip suf (insertReserved (escapeInto U pre name)) with
+  | none => rfl
+  | some r =>
+    simp only
+    generalize (if suf.isEmpty = true then fixTrailing r else r) ++ suf = c
+    by_cases ha : accept 0 (lower c) = true
+    · simp only [ha, if_true]
+    · simp only [ha, if_false]
+      cases cutForCounter c suf with
+      | none => rfl
+      | some b => exact source_tryCounters_eq_model ..
+
+theorem source_wrappers_eq_model : Gen.glyphFileName = glyphFileName ∧ Gen.layerDirName = layerDirName := by
+  constructor <;> funext U lower name existing
+  · unfold Gen.glyphFileName glyphFileName; rw [source_userNameToFileName_eq_model]; rfl
+  · unfold Gen.layerDirName layerDirName; rw [source_userNameToFileName_eq_model]; rfl
+
+
+/-- every theorem above transfers; e.g. the `AssignOK` contract and the first-accepted characterisation
+    for the function as translated from the source -/
+theorem source_fileName_accepted_stateless {U : Char → Bool} {lower : Str → Str} {name pre suf p : Str}
+    {ok : Str → Bool}
+    (h : Gen.userNameToFileName U lower name pre suf (fun _ => ok) = some p) : ok (lower p) = true := by
+  rw [source_userNameToFileName_eq_model] at h; exact fileName_accepted_stateless h
+
+theorem source_fileName_eq_some_iff {U : Char → Bool} {lower : Str → Str} {name pre suf p : Str}
+    {accept : Nat → Str → Bool} :
+    Gen.userNameToFileName U lower name pre suf accept = some p ↔
+      ∃ k, k ≤ 99 ∧ p = candidate U name pre suf k ∧ accept k (lower p) = true ∧
+        ∀ j, j < k → accept j (lower (candidate U name pre suf j)) = false := by
+  rw [source_userNameToFileName_eq_model]; exact fileName_eq_some_iff
+
+/-- the glif wrapper of the source yields a portable single component for every valid glyph name -/
+theorem source_glyphFileName_portable {U : Char → Bool} {lower : Str → Str} {name p : Str} {existing : List Str}
+    (hU : ∀ c : Char, 'A'.toNat ≤ c.toNat ∧ c.toNat ≤ 'Z'.toNat → U c = true) (hv : ValidName name)
+    (h : Gen.glyphFileName U lower name existing = some p) :
+    SingleComponent p ∧ NoLeadingPeriod p ∧ NoTrailingPeriodOrSpace p ∧ NotReserved p ∧
+      HasAffixes [] glifSuffix p ∧ existing.contains (lower p) = false := by
+  rw [source_wrappers_eq_model.1] at h
+  have hw : Wrapper [] glifSuffix := Or.inl ⟨rfl, rfl⟩
+  refine ⟨fileName_single_component hw hv h, fileName_no_leading_period hw hv h,
+    fileName_no_trailing_period_or_space (by decide) h, fileName_not_reserved hw hU h,
+    fileName_affixes_partial hw (Or.inl rfl) h, ?_⟩
+  have := fileName_accepted_stateless (ok := fun s => !existing.contains s) h
+  simpa using this
 
 /-! ## non-vacuity: the hypotheses are satisfiable and the conclusions not trivially true -/
 
